@@ -367,6 +367,7 @@ type layoutContext struct {
 	forcedBreak     bool
 	inColumn        bool
 	inFootnoteArea  bool // true while the footnote area itself is laid out
+	inMarginBox     bool // true while the content of a page-margin box is laid out
 }
 
 // presentationalHints=false,
